@@ -615,27 +615,44 @@ class PCBO(PUBO):
             Whether or not the given solution satisfies the constraints.
 
         """
-        if any(v.value(solution) != 0
+        def value(v):
+            try:
+                return v.value(solution)
+            except (KeyError, IndexError):
+                # A constraint can mention variables that are in no term of
+                # the model, for instance if it is always satisfied and
+                # therefore no penalty was added. ``solution`` then does not
+                # have to contain them; any value will do, so we use 1 (valid
+                # for boolean and spin variables).
+                sol = dict(
+                    solution if isinstance(solution, dict)
+                    else enumerate(solution)
+                )
+                for i in v._variables:
+                    sol.setdefault(i, 1)
+                return v.value(sol)
+
+        if any(value(v) != 0
                for v in self._constraints.get('eq', [])):
             return False
 
-        if any(v.value(solution) == 0
+        if any(value(v) == 0
                for v in self._constraints.get('ne', [])):
             return False
 
-        if any(v.value(solution) >= 0
+        if any(value(v) >= 0
                for v in self._constraints.get("lt", [])):
             return False
 
-        if any(v.value(solution) > 0
+        if any(value(v) > 0
                for v in self._constraints.get("le", [])):
             return False
 
-        if any(v.value(solution) <= 0
+        if any(value(v) <= 0
                for v in self._constraints.get("gt", [])):
             return False
 
-        if any(v.value(solution) < 0
+        if any(value(v) < 0
                for v in self._constraints.get("ge", [])):
             return False
 
